@@ -8,6 +8,7 @@ import (
 	"math"
 	"math/big"
 	"regexp"
+	"strconv"
 	"strings"
 	"unicode/utf8"
 
@@ -117,14 +118,27 @@ func FormatOK(format, text string) bool {
 }
 
 var (
-	reDate     = regexp.MustCompile(`^[12][0-9]{3}-(0[1-9]|1[0-2])-(0[1-9]|1[0-9]|2[0-8])$`)
+	reDate     = regexp.MustCompile(`^[0-9]{4}-(0[1-9]|1[0-2])-(0[1-9]|[12][0-9]|3[01])$`)
 	reTime     = regexp.MustCompile(`^([01][0-9]|2[0-3]):[0-5][0-9]:[0-5][0-9]$`)
-	reDateTime = regexp.MustCompile(`^[12][0-9]{3}-(0[1-9]|1[0-2])-(0[1-9]|1[0-9]|2[0-8])T([01][0-9]|2[0-3]):[0-5][0-9]:[0-5][0-9](\.[0-9]{0,8}[1-9])?(Z|[+-](0[0-9]|1[0-2]):(00|30))$`)
+	reDateTime = regexp.MustCompile(`^[0-9]{4}-(0[1-9]|1[0-2])-(0[1-9]|[12][0-9]|3[01])T([01][0-9]|2[0-3]):[0-5][0-9]:[0-5][0-9](\.[0-9]{0,8}[1-9])?(Z|[+-](0[0-9]|1[0-4]):(00|30|45))$`)
 	reIPv4     = regexp.MustCompile(`^(25[0-5]|2[0-4][0-9]|1[0-9][0-9]|[1-9]?[0-9])(\.(25[0-5]|2[0-4][0-9]|1[0-9][0-9]|[1-9]?[0-9])){3}$`)
-	canonIPv6  = map[string]bool{"::1": true, "2001:db8::1": true, "fe80::1234:5678": true, "::": true, "2001:db8:0:1:1:1:1:1": true}
+	canonIPv6  = map[string]bool{"::1": true, "2001:db8::1": true, "fe80::1234:5678": true, "::": true, "2001:db8:0:1:1:1:1:1": true, "ffff:ffff:ffff:ffff:ffff:ffff:ffff:ffff": true}
 )
 
-func validDate(string) bool { return true } // days limited to 01..28 by the regexp
+// validDate: a calendar date of the years 0001..9999 (proleptic Gregorian, as RFC 3339 and Go's time package read it).
+func validDate(text string) bool {
+	y, _ := strconv.Atoi(text[0:4])
+	m, _ := strconv.Atoi(text[5:7])
+	d, _ := strconv.Atoi(text[8:10])
+	if y < 1 {
+		return false
+	}
+	days := []int{31, 28, 31, 30, 31, 30, 31, 31, 30, 31, 30, 31}[m-1]
+	if m == 2 && y%4 == 0 && (y%100 != 0 || y%400 == 0) {
+		days = 29
+	}
+	return d >= 1 && d <= days
+}
 
 func (c *evalCtx) eval(s *sg.Schema, v any, path string, pos ctxPos) {
 	if s == nil {
